@@ -10,6 +10,14 @@ fn main() {
         c32::dump(&dir, n);
         return;
     }
+    if id == "C32-gen-only" {
+        // development aid: `vc-test C32-gen-only <replay.json>` generates (only) the project of a saved choice vector
+        let v: vcore::Value = serde_json::from_str(&std::fs::read_to_string(&args[1]).expect("read")).expect("json");
+        let choices: Vec<u32> = v["choices"].as_array().expect("choices").iter().map(|x| x.as_u64().unwrap_or(0) as u32).collect();
+        let n = c32::gen_only(choices);
+        println!("generated {n} tests");
+        return;
+    }
     vcore::quiet_panics();
     let ctx = vcore::Ctx::new(&id, &args[1.min(args.len())..]);
     match id.as_str() {
